@@ -322,6 +322,15 @@ func (c *c09Run) list(tys []cty.Type, nvals int) {
 			continue
 		}
 		ty := res.ty
+		// d09b (C09.unified_plain / unified_type_plain_std): placeholder-free inputs unify to a
+		// placeholder-free type — the side condition the applied-conversion theorems no longer carry
+		if plain {
+			ctx.Eval("unified_plain "+ub+" "+arg, true)
+			ctx.Tag("d09b:plain-inputs:result-" + kindTag(ty))
+			if ty.HasDynamicTypes() {
+				c.fail("unified_plain", "placeholder-in-result:"+kindTag(ty), "placeholder-free types unify to a type with a placeholder", tys, uns, "", "", res.wire())
+			}
+		}
 		// ---- clauses about the returned slice
 		var fails []string
 		if len(res.convs) != len(tys) {
@@ -837,5 +846,11 @@ func runC09(ctx *Ctx) {
 	// nested objects with differing attribute sets, deep chains (c09_d09.go)
 	if sec("4") {
 		c09D09(c)
+	}
+
+	// (5) d09b: placeholder-free structural types that reach the object / tuple sub-unifiers at
+	// several levels (c09_d09b.go)
+	if sec("5") {
+		c09D09b(c)
 	}
 }
